@@ -55,14 +55,21 @@ def catches(handler_names, raised):
 def handler_names(hdl, mod=None):
     if hdl.type is None:
         return None
-    htype = hdl.type
-    # `except DAMAGED_FILE_ERRORS:` - a module-level tuple of classes
-    if isinstance(htype, ast.Name) and mod is not None and isinstance(
-            mod.toplevel.get(htype.id), ast.Tuple):
-        htype = mod.toplevel[htype.id]
-    if isinstance(htype, ast.Tuple):
-        return [txt(e).split('.')[-1] for e in htype.elts]
-    return [txt(htype).split('.')[-1]]
+    def expand(htype, depth=0):
+        # `except DAMAGED_FILE_ERRORS:` - a module-level tuple of classes;
+        # `except (OSError,) + DAMAGED_FILE_ERRORS:` - a concatenation
+        if isinstance(htype, ast.Name) and mod is not None and isinstance(
+                mod.toplevel.get(htype.id), ast.Tuple) and depth < 3:
+            return expand(mod.toplevel[htype.id], depth + 1)
+        if isinstance(htype, ast.BinOp) and isinstance(htype.op, ast.Add):
+            return expand(htype.left, depth) + expand(htype.right, depth)
+        if isinstance(htype, ast.Tuple):
+            out = []
+            for elt in htype.elts:
+                out += expand(elt, depth)
+            return out
+        return [txt(htype).split('.')[-1]]
+    return expand(hdl.type)
 
 
 def find_merge(program):
